@@ -24,6 +24,7 @@ def run(db, chk) -> None:
     from ..specs.discipline import check_stateless
     check_stateless(db, chk, "C10.R-stateless", ['hta.analyzers.critical_path_analysis'])      # the result is a function of the arguments: no state kept between calls, caller's Trace untouched
     chk.floor("C10.R-stateless", 4)
+    check_stateless(db, chk, "C10.R-stateless", ["hta.common.trace_symbol_table"], scope=["decode_symbol_id_to_symbol_name"])    # the decoder the breakdown classifies names with
     m = db.mod(CP)
     _attribution(db, chk, m)
     _parents(db, chk, m)
